@@ -292,38 +292,66 @@ func c14Teardown(p *P, r *R, sc *ssa.Function) {
 	r.ob("R14.4", "teardown: closes every stream of the table", p.pos(td.Pos()), okStreams, true, "streams fail their pending and later calls and get their close callbacks")
 	// every stream's callback goroutine is awaited after its Close, and all of that precedes the release of the
 	// shared memory: a callback still running when the mapping disappears faults the whole process
-	var rangeLoop ssa.Instruction
+	rangeOf := func(x ssa.Value) (*ssa.Next, ssa.Value) {
+		if e, ok := x.(*ssa.Extract); ok {
+			if nx, ok := e.Tuple.(*ssa.Next); ok {
+				if rg, ok := nx.Iter.(*ssa.Range); ok {
+					return nx, rg.X
+				}
+			}
+		}
+		return nil, nil
+	}
+	waitOn := func(in ssa.Instruction) ssa.Value {
+		c, ok := in.(*ssa.Call)
+		if !ok || p.calleeName(&c.Call) != "(*sync.WaitGroup).Wait" {
+			return nil
+		}
+		fa, okf := c.Call.Args[0].(*ssa.FieldAddr)
+		if !okf || fieldKey(fa) != "Stream.asyncGoroutineWg" {
+			return nil
+		}
+		return fa.X
+	}
+	var waits []ssa.Instruction
+	allInstrs(td, func(in ssa.Instruction) {
+		if waitOn(in) != nil {
+			waits = append(waits, in)
+		}
+	})
+	var lastLoop ssa.Instruction // the loop after which every stream is closed and awaited
 	okWait := false
 	for _, ci := range findInstrs(td, p.mCall("(*Stream).Close")) {
 		x := ci.(*ssa.Call).Call.Args[0]
-		if e, ok := x.(*ssa.Extract); ok {
-			if nx, ok := e.Tuple.(*ssa.Next); ok {
-				rangeLoop = nx
+		nxC, tblC := rangeOf(x)
+		if nxC == nil {
+			continue
+		}
+		// (a) same iteration: from Close(x) the loop head is not reached again without Wait(x)
+		again := p.reachesWithout(pointOf(ci), nxC, func(in ssa.Instruction) bool { return waitOn(in) == x }, nil)
+		if !again {
+			okWait, lastLoop = true, nxC
+			continue
+		}
+		// (b) a later loop over the same table awaits every element unconditionally
+		for _, wi := range waits {
+			y := waitOn(wi)
+			nxW, tblW := rangeOf(y)
+			if nxW == nil || nxW == nxC || tblW != tblC {
+				continue
+			}
+			if !instrDominates(nxC, nxW) || p.reaches(nxW, ci, nil) {
+				continue
+			}
+			skip := p.reachesWithout(pointOf(y.(ssa.Instruction)), nxW, func(in ssa.Instruction) bool { return waitOn(in) == y }, nil)
+			if !skip {
+				okWait, lastLoop = true, nxW
 			}
 		}
-		res := p.mustPass(td, []Point{pointOf(ci)}, func(in ssa.Instruction) bool {
-			c, ok := in.(*ssa.Call)
-			if !ok || p.calleeName(&c.Call) != "(*sync.WaitGroup).Wait" {
-				return false
-			}
-			fa, okf := c.Call.Args[0].(*ssa.FieldAddr)
-			return okf && fieldKey(fa) == "Stream.asyncGoroutineWg" && fa.X == x
-		}, func(b *ssa.BasicBlock, i int) bool { return true }, nil)
-		// the must-pass is relative to the loop: from Close, before the next iteration or the loop exit
-		again := rangeLoop != nil && p.reachesWithout(pointOf(ci), rangeLoop, func(in ssa.Instruction) bool {
-			c, ok := in.(*ssa.Call)
-			if !ok || p.calleeName(&c.Call) != "(*sync.WaitGroup).Wait" {
-				return false
-			}
-			fa, okf := c.Call.Args[0].(*ssa.FieldAddr)
-			return okf && fieldKey(fa) == "Stream.asyncGoroutineWg" && fa.X == x
-		}, nil)
-		_ = res
-		okWait = !again
 	}
-	r.ob("R14.4", "teardown: waits for every stream's callback goroutine after closing the stream", p.pos(td.Pos()), okWait && rangeLoop != nil, true,
+	r.ob("R14.4", "teardown: waits for every stream's callback goroutine after closing the stream", p.pos(td.Pos()), okWait && lastLoop != nil, true,
 		"Stream.Close returns early while a callback is running; without the wait the teardown unmaps memory the callback still reads")
-	if rangeLoop != nil {
+	if lastLoop != nil {
 		okOrder := true
 		allInstrs(td, func(in ssa.Instruction) {
 			c, ok := in.(*ssa.Call)
@@ -332,7 +360,7 @@ func c14Teardown(p *P, r *R, sc *ssa.Function) {
 			}
 			n := p.calleeName(&c.Call)
 			if n == "addGlobalBufferManagerRefCount" || n == "(*queueManager).unmap" {
-				if !instrDominates(rangeLoop, in) {
+				if !instrDominates(lastLoop, in) || p.reaches(in, lastLoop, nil) {
 					okOrder = false
 				}
 			}
